@@ -116,12 +116,18 @@ def prop_variants(ctx, case):
     bp = case["bp"]
     n = len(bp["nodes"])
     try:
-        B0 = bpl.build(bp)
+        B0 = bpl.build_checked(ctx, bp)
     except RecursionError:
         # a task over a cyclic graph cannot be submitted (reported by C13); not a C01 case
         ctx.record(False, ["unbuildable:recursion"])
         return
-    base = [ids_of(o) for o in B0.objs]
+    if B0 is None:
+        ctx.record(False, ["build-raises"])
+        return
+    base = bpl.identifiers(ctx, B0)
+    if None in base:
+        ctx.record(False, ["identifier-raises"])
+        return
     # (d) job directory
     for i, node in enumerate(bp["nodes"]):
         if node.get("submit") is not None:
